@@ -366,6 +366,9 @@ def split_case(draw):
     c["frac"] = draw(go.unit())  # intermediate state off the grid
     # the public way by which the tabulation is obtained
     c["route"] = draw(st.sampled_from(["iter", "iter", "iter-no-start", "ephemeris", "daterange", "ephem", "ephem-interpolated"]))
+    # the tabulation may start elsewhere than at the orbit's own date (a positioning leg is integrated first):
+    # k0 integration steps after (+) or before (-) it
+    c["k0"] = draw(st.sampled_from([0, 0, 0, 1, 3, 17, 40, -1, -5, -30]))
     return c
 
 
@@ -381,13 +384,15 @@ def check_split(case):
     adaptive = case["method"] in ("rkf54", "dopri54")
     # Lagrange-8 remainder scale + the float-MJD abscissa of the resampling (0.63 us x 7.5 km/s = 5 mm)
     interp = 2.5 * a * (wp * h) ** 8 + 0.05
-    date = mkdate(T * 10**6)
+    route = case.get("route", "iter")
+    k0 = case.get("k0", 0) if route != "iter-no-start" else 0
+    t0 = k0 * h                       # where the tabulation starts, seconds from the orbit's date
+    date = mkdate((t0 + T) * 10**6)
     direct = pos(orb.propagate(date))
     worst = 0.0
     # (b) iterate with another output step over an on-grid span
     found = None
-    route = case.get("route", "iter")
-    span = dict(start=mkdate(0), stop=timedelta(seconds=N * h), step=timedelta(seconds=s_out))
+    span = dict(start=mkdate(t0 * 10**6), stop=timedelta(seconds=N * h), step=timedelta(seconds=s_out))
     if route == "iter":
         stream = orb.iter(**span)
     elif route == "iter-no-start":  # the start defaults to the orbit's own date; the stop given as a date
@@ -397,7 +402,7 @@ def check_split(case):
     elif route == "daterange":
         from beyond.dates import Date
 
-        stream = orb.iter(dates=Date.range(mkdate(0), mkdate(N * h * 10**6), timedelta(seconds=s_out), inclusive=True))
+        stream = orb.iter(dates=Date.range(mkdate(t0 * 10**6), mkdate((t0 + N * h) * 10**6), timedelta(seconds=s_out), inclusive=True))
     elif route == "ephem":
         stream = iter(orb.ephem(**span))
     else:  # the tabulated ephemeris interpolated at the date (a second re-sampling: its own remainder is added)
@@ -410,13 +415,18 @@ def check_split(case):
     if found is None:
         raise Violation("iter-missing-date", f"{route}(step={s_out}s) over {N * h}s never yielded t={T}s")
     d = float(np.linalg.norm(found[:3] - direct[:3]))
-    tol_b = interp * (1 if not adaptive else 1) + (0.0 if not adaptive else 2 * 10 * 1e-3 * (T / h + 8))
+    tol_b = interp * (1 if not adaptive else 1) + (0.0 if not adaptive else 2 * 10 * 1e-3 * ((abs(t0) + T) / h + 8))
+    if k0 < 0 and not adaptive:
+        # the direct request integrates backward from the orbit's date, the tabulation backward to its start and then
+        # forward: two different discrete paths, each within the method's own bound (C_ABS, facet `order`)
+        p_ = METHOD_ORDER[case["method"]]
+        tol_b += 2 * C_ABS[case["method"]] * a * (wp * h) ** p_ * (wp * (2 * abs(t0) + T))
     worst = max(worst, d / tol_b)
     if d > tol_b:
         raise Violation("output-step", f"{case['method']} h={h}s: state at t={T}s differs by {d:.4g} m between propagate() and "
                                        f"{route}(step={s_out}s) (allowed {tol_b:.4g} m)")
     # (c) restart from an intermediate state lying on the integration grid (fixed-step methods: same grid)
-    if not adaptive:
+    if not adaptive and k0 == 0:
         t1 = case["k1"] * h
         mid = orb.propagate(mkdate(t1 * 10**6))
         T2 = max(T, t1)
@@ -428,7 +438,8 @@ def check_split(case):
         if d > tol_c:
             raise Violation("split-on-grid", f"{case['method']} h={h}s: propagate({t1}s) then propagate to {T2}s differs from the "
                                              f"direct result by {d:.4g} m (allowed {tol_c:.4g} m)")
-    return dict(nt=T % h != 0, cls=label_cls(case) + [case["method"], "target-off-grid" if T % h else "target-on-grid", "route:" + route], ratio=worst)
+    return dict(nt=T % h != 0, cls=label_cls(case) + [case["method"], "target-off-grid" if T % h else "target-on-grid", "route:" + route,
+                                                      "start:at-epoch" if k0 == 0 else "start:later" if k0 > 0 else "start:earlier"], ratio=worst)
 
 
 # ---------------------------------------------------------------- re-configured propagator object
